@@ -5,6 +5,9 @@
 //! Protocol (model side: lean/CkbVerif/Driver/C09.lean):
 //!   cfg <max_file_size> [<lru-cap>]     -> ok                       (fresh empty directory; round 6:
 //!                                                                    capacity of the read-handle LRU, default 256)
+//!   present                             -> present=<id,..|->        (round 6b: ids of the data files that
+//!                                                                    exist; `raw` creates exactly the listed files,
+//!                                                                    an id that is not listed has NO file)
 //!   cache                               -> cache=<id,..|->          (round 6: ids of the cached read
 //!                                                                    handles, most recently used first)
 //!   open                                -> ok <number> | err
@@ -527,6 +530,7 @@ fn run_case(out: &mut Out, rng: &mut Rng, base: &Path, n_ops: usize, all_cuts: b
             out.op("cache", &cache_line(f));
             let _ = f.sync_all();
             out.op("disk", &disk_line(&sim.dir));
+            out.op("present", &present_line(&sim.dir));
             out.count("cache");
         }
     }
@@ -549,7 +553,8 @@ fn ents_str(ents: &[(u32, u64)]) -> String {
 }
 
 fn files_str(files: &[(u32, u64)]) -> String {
-    let v: Vec<String> = files.iter().filter(|(_, l)| *l > 0).map(|(i, l)| format!("{i}:{l}")).collect();
+    // every listed file EXISTS (length 0 included); an id that is not listed has no file
+    let v: Vec<String> = files.iter().map(|(i, l)| format!("{i}:{l}")).collect();
     if v.is_empty() { "-".into() } else { v.join(",") }
 }
 
@@ -574,13 +579,19 @@ fn raw_setup(dir: &Path, ents: &[(u32, u64)], tail: u64, files: &[(u32, u64)]) {
     }
     idx.extend(std::iter::repeat(0xABu8).take(tail as usize));
     fs::write(dir.join("INDEX"), idx).unwrap();
-    for id in 0..4u32 {
-        let len = files.iter().find(|(i, _)| *i == id).map(|(_, l)| *l).unwrap_or(0);
-        fs::write(dir.join(file_name(id)), pattern(id, len)).unwrap();
-    }
-    for (id, len) in files.iter().filter(|(i, _)| *i >= 4) {
+    for (id, len) in files.iter() {
         fs::write(dir.join(file_name(*id)), pattern(*id, *len)).unwrap();
     }
+}
+
+/// round 6b: ids of the data files that exist
+fn present_line(dir: &Path) -> String {
+    let mut ids: Vec<u32> = fs::read_dir(dir)
+        .unwrap()
+        .filter_map(|e| e.unwrap().file_name().into_string().unwrap().strip_prefix("blk").and_then(|s| s.parse::<u32>().ok()))
+        .collect();
+    ids.sort();
+    format!("present={}", if ids.is_empty() { "-".to_string() } else { ids.iter().map(|i| i.to_string()).collect::<Vec<_>>().join(",") })
 }
 
 fn op_raw(out: &mut Out, sim: &mut Sim, ents: &[(u32, u64)], tail: u64, files: &[(u32, u64)]) {
@@ -641,16 +652,17 @@ fn probe_raw(out: &mut Out, sim: &mut Sim) {
     out.op(&format!("retrieve {n}"), &l);
     out.op("disk", &disk_line(&sim.dir));
     out.op("cache", &cache_line(sim.f.as_ref().unwrap()));
+    out.op("present", &present_line(&sim.dir));
 }
 
 /// round 6: EVERY small directory — all index-entry sequences of length 0..=3 over
 /// fid in 0..nfid x off in 0..=3, x every length 0..=3 of each data file x a clean or partial tail —
 /// opened by the real `FreezerFilesBuilder::build` + `preopen` and compared with the decision table
-fn run_raw_exhaustive(out: &mut Out, base: &Path, nfid: u32) {
-    let vals: Vec<(u32, u64)> = (0..nfid).flat_map(|f| (0..=3u64).map(move |o| (f, o))).collect();
+fn run_raw_exhaustive(out: &mut Out, base: &Path, nfid: u32, max_entries: usize, max_len: u64) {
+    let vals: Vec<(u32, u64)> = (0..nfid).flat_map(|f| (0..=max_len).map(move |o| (f, o))).collect();
     let mut seqs: Vec<Vec<(u32, u64)>> = vec![vec![]];
     let mut last: Vec<Vec<(u32, u64)>> = vec![vec![]];
-    for _ in 0..3 {
+    for _ in 0..max_entries {
         let mut next = vec![];
         for s in &last {
             for v in &vals {
@@ -662,9 +674,10 @@ fn run_raw_exhaustive(out: &mut Out, base: &Path, nfid: u32) {
         seqs.extend(next.iter().cloned());
         last = next;
     }
+    // per data file: absent (u64::MAX) or a length 0..=3
     let mut lens: Vec<Vec<u64>> = vec![vec![]];
     for _ in 0..nfid {
-        lens = lens.iter().flat_map(|l| (0..=3u64).map(move |x| { let mut t = l.clone(); t.push(x); t })).collect();
+        lens = lens.iter().flat_map(|l| std::iter::once(u64::MAX).chain(0..=max_len).map(move |x| { let mut t = l.clone(); t.push(x); t })).collect();
     }
     let mut sim = Sim { dir: base.join("main"), scratch: base.join("scratch"), max: 4, limit: 2, f: None, items: vec![] };
     // the repair loop underflows (a debug-build panic, caught and answered `err`) on every directory
@@ -673,7 +686,7 @@ fn run_raw_exhaustive(out: &mut Out, base: &Path, nfid: u32) {
     std::panic::set_hook(Box::new(|_| {}));
     for tail in [0u64, 5] {
         for fl in &lens {
-            let files: Vec<(u32, u64)> = fl.iter().enumerate().map(|(i, l)| (i as u32, *l)).collect();
+            let files: Vec<(u32, u64)> = fl.iter().enumerate().filter(|(_, l)| **l != u64::MAX).map(|(i, l)| (i as u32, *l)).collect();
             out.begin_case(&format!("raw tail={tail} files={}", files_str(&files)));
             out.op("cfg 4 2", "ok");
             let mut ok = 0;
@@ -685,6 +698,15 @@ fn run_raw_exhaustive(out: &mut Out, base: &Path, nfid: u32) {
                     ok += 1;
                 } else {
                     err += 1;
+                    // a failed open has side effects (files created, INDEX trimmed): what it left,
+                    // and what the NEXT open makes of it
+                    out.op("disk", &disk_line(&sim.dir));
+                    out.op("present", &present_line(&sim.dir));
+                    if op_open_raw(out, &mut sim) {
+                        out.op("disk", &disk_line(&sim.dir));
+                        out.op("present", &present_line(&sim.dir));
+                        out.op("cache", &cache_line(sim.f.as_ref().unwrap()));
+                    }
                 }
             }
             if ok > 0 && err > 0 {
@@ -919,6 +941,9 @@ fn replay_case(out: &mut Out, base: &Path, ops: &[String]) {
             "cache" => {
                 out.op("cache", &cache_line(sim.f.as_ref().expect("handle")));
             }
+            "present" => {
+                out.op("present", &present_line(&sim.dir));
+            }
             "cutopen" | "cut" => {
                 let il: u64 = t[1].parse().unwrap();
                 let fid: u32 = t[2].parse().unwrap();
@@ -987,13 +1012,17 @@ pub fn run(opts: &Opts) {
             run_case(&mut out, &mut rng, &base, if all { n_ops } else { n_ops * 2 }, all);
         }
         // round 6: every small directory through the real `open`, and power-loss histories
-        run_raw_exhaustive(&mut out, &base, if opts.thorough() { 3 } else { 2 });
+        run_raw_exhaustive(&mut out, &base, if opts.thorough() { 3 } else { 2 }, 3, 3);
+        if opts.thorough() {
+            // thorough only: larger directories — up to 4 index entries, offsets and lengths up to 4
+            run_raw_exhaustive(&mut out, &base, 2, 4, 4);
+        }
         for _ in 0..(if opts.thorough() { 3000 * opts.scale } else { 300 * opts.scale }) {
             run_powerloss_case(&mut out, &mut rng, &base);
         }
     }
     let _ = fs::remove_dir_all(&base);
-    out.finish("random append/truncate/reopen histories on the real FreezerFiles (compression off, max_file_size 20..100 bytes, item sizes biased to the rollover boundary); after every append every (index length, head-file length | missing) cut pair between the pre- and post-append sizes is materialised on a copy and re-opened; batches of 2-4 unsynced appends are cut anywhere between the pre-batch and final sizes (entry boundaries +-1, random points); a case is non-trivial iff it contains a rollover and at least one cut; distinct by (max, item-length list). Round 6: `raw` cases — EVERY directory with an INDEX of 0..3 entries over fid 0..1 (thorough 0..2) x offset 0..3, every data-file length 0..3, clean or 5-byte partial tail, is opened by the real build+preopen, dumped, read at every position and appended to (non-trivial iff the case has both successful and failing opens); `powerloss` cases — 5..10 appends over several data files, then 1..3 data files (an OLDER one first) cut to a prefix biased to entry boundaries, sometimes the INDEX too, re-opened, every item read, then a truncate into the damaged region (non-trivial iff an older file was really shortened)");
+    out.finish("random append/truncate/reopen histories on the real FreezerFiles (compression off, max_file_size 20..100 bytes, item sizes biased to the rollover boundary); after every append every (index length, head-file length | missing) cut pair between the pre- and post-append sizes is materialised on a copy and re-opened; batches of 2-4 unsynced appends are cut anywhere between the pre-batch and final sizes (entry boundaries +-1, random points); a case is non-trivial iff it contains a rollover and at least one cut; distinct by (max, item-length list). Round 6: `raw` cases — EVERY directory with an INDEX of 0..3 entries over fid 0..1 (thorough 0..2) x offset 0..3, every data file ABSENT or of length 0..3, clean or 5-byte partial tail (thorough also: 0..4 entries over fid 0..1 x offset 0..4, files absent or of length 0..4), is opened by the real build+preopen, dumped (layout, existing files, cached ids), read at every position and appended to; a failed open is followed by what it left on disk and a second open (non-trivial iff the case has both successful and failing opens); `powerloss` cases — 5..10 appends over several data files, then 1..3 data files (an OLDER one first) cut to a prefix biased to entry boundaries, sometimes the INDEX too, re-opened, every item read, then a truncate into the damaged region (non-trivial iff an older file was really shortened)");
 }
 
 /// Stream `top`: the real `ckb_freezer::Freezer` (freezer/src/freezer.rs) — `open` on a directory,
@@ -1019,6 +1048,10 @@ pub fn run(opts: &Opts) {
 ///   fork <idxLen> <fid> <len|rm>                  -> ok      alt := snapshot cut to these lengths (closed)
 ///   cut <idxLen> <fid> <len|rm>                   -> ok      main directory cut (closed); `open` follows
 ///   same                                          -> same | diff   alt and main hold the same content
+///   [alt ]cache                                   -> cache=<id,..|->   (round 6b) ids in the read-handle LRU
+///        (hook Freezer::verif_cached_ids, most recently used first) as the operation before left it
+///   [alt ]sweep                                   -> cache=<id,..|->   the same after the oracle retrieved
+///        heights 1..number-1 in order (the model applies those retrieves; `dump`/`same` sweep too)
 ///   cutfile <fid> <len>                           -> ok      (round 6, power loss: a data file of the
 ///        main directory — an older one — cut to a prefix; closed; the `open` that follows runs the
 ///        power-loss oracle: succeeds, every retrieve is the block frozen there or an Err)
@@ -1200,6 +1233,20 @@ mod top {
             if alt { "alt " } else { "" }
         }
 
+        /// round 6b: ids in the read-handle LRU of the real freezer, most recently used first
+        fn cache_ids(f: &Freezer) -> String {
+            let ids = f.verif_cached_ids();
+            format!("cache={}", if ids.is_empty() { "-".to_string() } else { ids.iter().map(|i| i.to_string()).collect::<Vec<_>>().join(",") })
+        }
+
+        /// emits `cache` (the LRU as the operation left it, captured BEFORE the oracle's retrieves)
+        /// and `sweep` (the LRU after the oracle retrieved heights 1..number-1 in order; the model
+        /// applies the same retrieves)
+        fn emit_cache(&self, out: &mut Out, alt: bool, before: &str, f: &Freezer) {
+            out.op(&format!("{}cache", Self::pre(alt)), before);
+            out.op(&format!("{}sweep", Self::pre(alt)), &Self::cache_ids(f));
+        }
+
         fn tip_id(&self, f: &Freezer) -> String {
             match f.verif_tip_hash() {
                 None => "-".into(),
@@ -1289,6 +1336,7 @@ mod top {
             match std::panic::catch_unwind(std::panic::AssertUnwindSafe(|| Freezer::open(dir.clone()))) {
                 Ok(Ok(f)) => {
                     f.verif_set_limits(max, limit);
+                    let cache_before = Self::cache_ids(&f);
                     let number = f.number();
                     let n = number.saturating_sub(1) as usize;
                     if number < 1 || n > expect.len() {
@@ -1314,6 +1362,7 @@ mod top {
                         out.count("top-powerloss-blocks-unreadable-after-open");
                     }
                     out.op("open", &format!("ok {} {}", number, self.tip_id(&f)));
+                    self.emit_cache(out, false, &cache_before, &f);
                     self.main.expect.truncate(n);
                     self.main.min_keep = 0;
                     self.main.f = Some(f);
@@ -1345,8 +1394,10 @@ mod top {
             match r {
                 Ok(Ok(f)) => {
                     f.verif_set_limits(max, limit);
+                    let before = Self::cache_ids(&f);
                     let n = self.check_chain(out, &f, &expect, min_keep, &format!("after {op}"));
                     out.op(&op, &format!("ok {} {}", f.number(), self.tip_id(&f)));
+                    self.emit_cache(out, alt, &before, &f);
                     let s = self.slot(alt);
                     s.expect.truncate(n);
                     s.min_keep = s.expect.len();
@@ -1423,6 +1474,7 @@ mod top {
                 })
             }));
             f.stopped.store(false, Ordering::SeqCst);
+            let cache_before = Self::cache_ids(&f);
             let number1 = f.number();
             let tip = self.tip_id(&f);
             let ans = match &r {
@@ -1477,8 +1529,9 @@ mod top {
             }
             let expect = self.slot(alt).expect.clone();
             self.check_chain(out, &f, &expect, expect.len(), &format!("after {op}"));
-            self.slot(alt).f = Some(f);
             out.op(&op, &ans);
+            self.emit_cache(out, alt, &cache_before, &f);
+            self.slot(alt).f = Some(f);
             out.count(if alt { "alt-freeze" } else { "freeze" });
         }
 
@@ -1565,6 +1618,7 @@ mod top {
                 let rb = hb.join().unwrap();
                 (ra, rt, rb)
             });
+            let cache_before = Self::cache_ids(&f);
             // ---- what was observed
             let n0_b = match b_first.load(Ordering::SeqCst) { u64::MAX => number0, h => h };
             let n0_t = if k > 0 { number0 } else { 0 };
@@ -1626,8 +1680,9 @@ mod top {
             self.main.expect = expect.clone();
             self.main.min_keep = expect.len();
             self.check_chain(out, &f, &expect, expect.len(), &format!("after {op}"));
-            self.main.f = Some(f);
             out.op(&op, &ans);
+            self.emit_cache(out, false, &cache_before, &f);
+            self.main.f = Some(f);
             out.count("race");
         }
 
@@ -1645,8 +1700,9 @@ mod top {
             if ans != want {
                 out.oracle_fail("top-retrieve-mismatch", &format!("{op}: got={ans} want={want}"));
             }
-            self.slot(alt).f = Some(f);
             out.op(&op, &ans);
+            out.op(&format!("{}cache", Self::pre(alt)), &Self::cache_ids(&f));
+            self.slot(alt).f = Some(f);
             out.count("retrieve");
         }
 
@@ -1654,6 +1710,7 @@ mod top {
             let op = format!("{}truncate {}", Self::pre(alt), i);
             let f = self.slot(alt).f.take().expect("truncate on a closed slot");
             let r = std::panic::catch_unwind(std::panic::AssertUnwindSafe(|| f.truncate(i)));
+            let cache_before = Self::cache_ids(&f);
             {
                 let s = self.slot(alt);
                 if i >= 1 && (i as usize) < s.expect.len() {
@@ -1685,8 +1742,9 @@ mod top {
                 out.oracle_fail("top-truncate-number", &format!("{op}: number={} expected={}", f.number(), expect.len() + 1));
             }
             self.check_chain(out, &f, &expect, expect.len(), &format!("after {op}"));
-            self.slot(alt).f = Some(f);
             out.op(&op, &ans);
+            self.emit_cache(out, alt, &cache_before, &f);
+            self.slot(alt).f = Some(f);
             out.count("truncate");
         }
 
@@ -1861,7 +1919,7 @@ mod top {
         let limit = *rng.pick(&[2usize, 2, 3, 256]);
         let big = *rng.pick(&[100usize, 300, 600]);
         out.begin_case(&format!("top max={max} lru={limit}"));
-        out.op(&format!("cfg {max}"), "ok");
+        out.op(&format!("cfg {max} {limit}"), "ok");
         let mut sim = Sim::new(base, max, limit);
         sim.op_open(out, false);
         let mut shape: Vec<String> = vec![];
@@ -2050,9 +2108,9 @@ mod top {
                     continue;
                 }
                 "cfg" => {
-                    let limit = ops.first().and_then(|l| l.split_whitespace().find_map(|w| w.strip_prefix("lru=")).and_then(|v| v.parse().ok())).unwrap_or(2usize);
+                    let limit = t.get(2).and_then(|v| v.parse().ok()).or_else(|| ops.first().and_then(|l| l.split_whitespace().find_map(|w| w.strip_prefix("lru=")).and_then(|v| v.parse().ok()))).unwrap_or(2usize);
                     sim = Some(Sim::new(base, t[1].parse().unwrap(), limit));
-                    out.op(line, "ok");
+                    out.op(&format!("cfg {} {}", t[1], limit), "ok");
                     continue;
                 }
                 _ => {}
@@ -2079,6 +2137,7 @@ mod top {
                     s.op_cut(out, il, fid, fl);
                 }
                 "same" => s.op_same(out),
+                "cache" | "sweep" => {} // emitted by the operation before them
                 "cutfile" => s.op_cutfile(out, t[1].parse().unwrap(), t[2].parse().unwrap()),
                 "race" => {
                     let ids = |x: &str| -> Vec<u64> { if x == "-" { vec![] } else { x.split(',').map(|v| v.parse().unwrap()).collect() } };
